@@ -24,7 +24,8 @@ func init() {
 			"R6 header vocabulary: every header the client reads from a response is set by some server handler with the identical spelling, and every request header the server reads is set by the client; " +
 			"R7 codec coverage: construct's switch covers every Kind and every Kind is assigned by the classifier; a request captured by a returned iterator is never written through (re-iteration starts from the caller's arguments); " +
 			"R8 the client's chunked-upload bookkeeping is consistent (Content-Range end, ContentLength and the advance of `flushed` are one quantity; `size` advances only when Write can no longer fail), so a chunked upload relays the same writes the caller issued. " +
-			"R9 range dispatch (as C01.R6); R10 post-success refusals: after the backend accepted a call a handler refuses the request on its own only under the reviewed comparisons (blob range: start > Size, end < start).",
+			"R9 range dispatch (as C01.R6); R10 post-success refusals: after the backend accepted a call a handler refuses the request on its own only under the reviewed comparisons (blob range: start > Size, end < start). " +
+			"R4b the media type handed to PushManifest is the Content-Type header as sent (or the default).",
 		NotDecided: "equality of bytes/descriptors on values, URL escaping of unusual names, behaviour under server options, and the Construct->Parse round trip on values are not decided.",
 		Technique:  "static analysis: extraction of request literals and dispatch table from SSA, comparison with reviewed tables, argument provenance, header-name set agreement",
 	})
